@@ -67,6 +67,7 @@ class Prop:
                              "dispatch": "ui" if (deferred and c.random() < 0.6) else "same"})
         pre = c.choice([0, 0, 2, 5])
         nops = c.choice([3, 6, 10, 16, 24, 30])
+        gc_mode = c.choice(["explicit", "explicit", "explicit", "storm"])
         k1_witness = False
         ops = []
         for _ in range(nops + pre):
@@ -86,7 +87,7 @@ class Prop:
                 ops.append(G.gen_graph_op(r, npool))
         return {"prop": ID, "seed": seed,
                 "config": {"npool": npool, "handlers": handlers, "pre": pre,
-                           "allow_k1": k1_witness},
+                           "allow_k1": k1_witness, "gc_mode": gc_mode},
                 "ops": ops}
 
     # ------------------------------------------------------------------ execution
@@ -99,6 +100,13 @@ class Prop:
         sched = Sched(env)
         self._sched = sched
         sched.install()
+        self._gc_thresh = gc.get_threshold()
+        if cfg.get("gc_mode") == "storm":
+            # cyclic GC at every opportunity (on CPython 3.12 collections happen only on
+            # the eval breaker, i.e. at byte-code boundaries: this visits all of them)
+            gc.enable()
+            gc.set_threshold(1, 1, 1)
+            env.probe("gc-storm-run")
         routed = []
         oapi.push_exception_handler(lambda ev: routed.append(ev), reraise_exceptions=False)
         self._pushed = True
@@ -270,6 +278,10 @@ class Prop:
 
     def cleanup(self):
         from traits.observation import api as oapi
+        if getattr(self, "_gc_thresh", None) is not None:
+            gc.set_threshold(*self._gc_thresh)
+            gc.disable()
+            self._gc_thresh = None
         s = getattr(self, "_sched", None)
         if s is not None:
             s.uninstall()
